@@ -1142,7 +1142,9 @@ func (s *evmSim) notePending() {
 // busy-consumer scenario: there a goroutine of the previous Run lives on next to the new ones, and
 // how their polls interleave at one instant is the Go scheduler's business (it changes no verdict).
 func (s *evmSim) pollsForLog() string {
-	if s.holdUsed {
+	if s.holdUsed || s.inc > 1 {
+		// (after a restart the first poll of the new poller and the last one of the old poller fall
+		// on the same instant in an order the Go scheduler picks)
 		return "-"
 	}
 	return strconv.Itoa(s.reqs["blockByNumber"])
